@@ -447,8 +447,12 @@ class Ctx:
         ev = dict(property_id=self.pid, tier=self.tier, seed=int(self.seed), level=level, coverage=cov,
                   assumptions=assumptions or [], wall_s=round(time.time() - self.t0, 2),
                   violations=len(self.violations))
-        os.makedirs(os.path.join(ROOT, "evidence"), exist_ok=True)
-        with open(os.path.join(ROOT, "evidence", self.pid + ".json"), "w") as f:
+        # evidence/<id>.json always describes a run against /repo itself; runs against another tree ($VERIF_REPO: seeded
+        # changes, the pre-fix tree) leave it alone and write under .work/ instead.
+        evdir = os.path.join(ROOT, "evidence") if REPO == "/repo" else os.path.join(ROOT, ".work", "evidence-other-tree")
+        ev["repo"] = REPO
+        os.makedirs(evdir, exist_ok=True)
+        with open(os.path.join(evdir, self.pid + ".json"), "w") as f:
             json.dump(ev, f, indent=1, default=str)
 
     def cleanup(self):
@@ -457,6 +461,12 @@ class Ctx:
 
     def exit_code(self):
         return 1 if self.violations else 0
+
+
+def evidence_path(pid):
+    """Where the evidence of this run lives (evidence/<id>.json only for runs against /repo itself)."""
+    d = os.path.join(ROOT, "evidence") if REPO == "/repo" else os.path.join(ROOT, ".work", "evidence-other-tree")
+    return os.path.join(d, pid + ".json")
 
 
 def distinct_nontrivial(cases):
